@@ -182,9 +182,57 @@ def strategy(thorough):
                      progs.program_strategy(max_fns=7 if thorough else 5, allow_hidden=False, allow_fdef=True, allow_dictset=True, allow_query=True, allow_mut=True, allow_tuplist=True, allow_twins=True, allow_keyclash=True, allow_rename=True, allow_mixset=True, allow_nested_refs=True, allow_gdef=True), cfgs, rebind)
 
 
+def directed_cases():
+    """
+    A small enumerated family of program shapes whose versions have depended on the hash seed or on the definition order
+    before (in the library or under a seeded change); each is run under six hash seeds and several definition orders.
+    Generated search produces these shapes too, but only with some probability per run.
+    """
+    lit = lambda v: {"e": "lit", "v": v}  # noqa: E731
+    call = lambda f: {"e": "call", "f": f}  # noqa: E731
+    add = lambda a, b: {"e": "add", "a": a, "b": b}  # noqa: E731
+    glob = lambda n: {"e": "glob", "n": n}  # noqa: E731
+
+    def fn(name, memento, body, **kw):
+        return dict({"k": "fn", "mod": "a", "name": name, "memento": memento, "version": None, "cluster": None, "pdef": None, "kwdef": None,
+                     "fdef": None, "base": lit(1), "body": body}, **kw)
+
+    def var(name, vtype, value):
+        return {"k": "var", "mod": "a", "name": name, "vtype": vtype, "value": value}
+    cfgs = [{"seed": sd, "order": od, "query": [], "mode": md} for sd, od, md in
+            ((0, [], "mixed"), (1, [3, 1, 2, 0], "mixed"), (2, [2, 0, 3, 1], "plain-last"), (3, [1, 3, 0, 2], "vars-last"),
+             (4, [0, 2, 1, 3], "memento-last"), (5, [3, 2, 1, 0], "mixed"))]
+    shapes = []
+    # plain helpers forming a diamond / triangle under a memento root, for helper names sorting before and after the root's
+    for n1, n2 in (("a", "b"), ("a", "zz"), ("zz", "a"), ("y", "zz")):
+        defs = [fn("f2", False, add({"e": "x"}, lit(3))), fn("f1", False, add(call("f2"), lit(2))),
+                fn("f0", True, add(call("f1"), call("f2")))]
+        shapes.append(("helper-diamond", progs.rename_defs({"pkg": "vpk", "modules": ["a"], "defs": defs}, {"f1": n1, "f2": n2})))
+    # a set of strings / of mixed types, and a dictionary built from a set, read by the root
+    shapes.append(("mixed-type-set", {"pkg": "vpk", "modules": ["a"], "defs": [
+        var("G0", "mixset", ["", "NA", "n/a", "null", None, 3]), var("G1", "dictset", ["a", "bb", "ccc", "dddd"]),
+        fn("f0", True, add(glob("G0"), add(glob("G1"), {"e": "inset", "x": {"e": "x"}, "s": ["e", "a", "zz", "cc"]})))]}))
+    # two module-level lambdas, and a function next to a module-level clone of it
+    shapes.append(("two-lambdas", {"pkg": "vpk", "modules": ["a"], "defs": [
+        fn("lam0", False, add({"e": "x"}, lit(4)), lam=True), fn("lam1", False, add({"e": "x"}, lit(7)), lam=True),
+        fn("f0", True, add(call("lam0"), call("lam1")))]}))
+    shapes.append(("function-and-clone", {"pkg": "vpk", "modules": ["a"], "defs": [
+        fn("f1", True, add({"e": "x"}, lit(2))), {"k": "alias", "form": "clone", "mod": "a", "name": "f1_c", "target": "f1"},
+        fn("f0", True, add(call("f1"), call("f1_c")))]}))
+    # a function-valued and a variable-valued parameter default, the variable updated in place by the module text
+    shapes.append(("defaults", {"pkg": "vpk", "modules": ["a"], "defs": [
+        var("G0", "list", [1, 2]), {"k": "mut", "mod": "a", "name": "_mut0", "target": "G0", "delta": 11},
+        fn("f2", False, add({"e": "x"}, glob("G0"))), fn("f1", True, add(call("f2"), {"e": "pg"}), gdef="G0"),
+        fn("f0", True, add({"e": "pfn"}, add({"e": "pg"}, call("f1"))), fdef="f1", gdef="G0")]}))
+    for label, prog in shapes:
+        yield {"program": prog, "configs": [dict(c) for c in cfgs], "rebind": None, "src": "directed:" + label}
+
+
 def run_shard(ctx):
     stats = core.Stats()
     thorough = ctx.tier == "thorough"
+    core.enum_search(list(directed_cases()), lambda c: execute(c, ctx.scratch), stats, findings=ctx.findings, shard=ctx.shard, nshards=ctx.nshards,
+                     deadline_s=max((ctx.deadline - time.time()) * 0.4, 5) if ctx.deadline else None)
     core.hyp_search(strategy(thorough), lambda c: execute(c, ctx.scratch), stats, max_examples=60 if thorough else 5,
                     seed=core.hash64(ctx.seed, ID, ctx.shard), findings=ctx.findings, shrink=thorough,
                     deadline_s=(ctx.deadline - time.time()) if ctx.deadline else None)
